@@ -1,6 +1,10 @@
 import CpProofs.C17Lemmas
 /-!
   C17 — negotiated content and charset encodings are lossless and honoured.
+
+  Models: `CpModel/Gzip.lean` (compress(), CRC-32, checking gunzip), `CpModel/Negotiate.lean`
+  (header_elements, encoding.gzip as repaired, ResponseEncoder).  Helper lemmas: `C17Lemmas.lean`.
+  Parameters: raw deflate `Z` (contract `Z.Lawful`), codecs (`can`, `Codec`).
 -/
 namespace CpProofs.C17
 
@@ -25,9 +29,463 @@ theorem C17_gzip_roundtrip (z : Z) (hz : z.Lawful) (level mtime : Nat) (chunks :
   rw [hz level chunks]
   simp only [trailerChunks, le32, List.flatten_cons, List.flatten_nil, List.append_nil,
     List.cons_append, List.nil_append, crc32_chunks, size_chunks, rd32_le32]
-  have h1 : (crc32 chunks.flatten).toNat % 4294967296 % 4294967296 = (crc32 chunks.flatten).toNat := by
-    have := UInt32.toNat_lt (crc32 chunks.flatten)
-    omega
   simp
+
+/-- non-vacuity of `Z.Lawful`: the "stored" coder (length-prefixed copy) is lawful, so the theorem is
+    not about an empty class (one byte of length, bodies < 256 bytes would do; here: unary framing) -/
+def storedGo : List UInt8 → List UInt8 → Option (Bytes × Bytes)
+  | 1 :: b :: r, acc => storedGo r (b :: acc)
+  | 0 :: r, acc => some (acc.reverse, r)
+  | _, _ => none
+
+def zStored : Z where
+  deflate := fun _ chunks => [chunks.flatten.flatMap (fun b => [1, b]) ++ [0]]
+  inflate := fun bs => storedGo bs []
+
+theorem zStored_go (data tail acc : Bytes) :
+    storedGo (data.flatMap (fun b => [1, b]) ++ 0 :: tail) acc = some (acc.reverse ++ data, tail) := by
+  induction data generalizing acc with
+  | nil => simp [storedGo]
+  | cons b bs ih => simp [storedGo, ih]
+
+theorem zStored_lawful : zStored.Lawful := by
+  intro lvl chunks tail
+  simp only [zStored, List.flatten_cons, List.flatten_nil, List.append_nil, List.append_assoc,
+    List.cons_append, List.nil_append]
+  simpa using zStored_go chunks.flatten tail []
+
+example : gunzip zStored (member zStored 6 1700000000 [[1, 2], [], [3]]) = some [1, 2, 3] :=
+  C17_gzip_roundtrip zStored zStored_lawful 6 1700000000 [[1, 2], [], [3]]
+
+/-- the CRC-32 is the standard one (check value of the catalogue) -/
+example : crc32 [0x31, 0x32, 0x33, 0x34, 0x35, 0x36, 0x37, 0x38, 0x39] = 0xCBF43926 := by decide +kernel
+
+/-- **Header**: ten bytes, RFC 1952 magic, CM = 8, FLG = 0, MTIME mod 2^32 little endian, XFL by level
+    (9 → 2, 1 → 4, else 0), OS = 255. -/
+theorem C17_gzip_header (level mtime : Nat) :
+    (headerChunks level mtime).flatten =
+      [0x1f, 0x8b, 0x08, 0x00] ++ le32 (mtime % 4294967296) ++
+        [if level = 9 then 2 else if level = 1 then 4 else 0, 0xff] ∧
+    (headerChunks level mtime).flatten.length = 10 := by
+  simp [headerChunks, le32, xfl]
+
+/-! ## the gzip tool: labels and passthrough -/
+
+/-- `Accept-Encoding` is among the members of the Vary value the tool writes -/
+theorem setVary_contains (v : Option Str) :
+    ∃ vs, setVary v = joinWith [',', ' '] vs ∧ sAcceptEncoding ∈ vs := by
+  simp only [setVary]
+  split
+  · rename_i h
+    exact ⟨_, rfl, List.contains_iff_mem.mp h⟩
+  · exact ⟨_, rfl, by simp⟩
+
+/-- **Compress**: the body becomes a valid gzip member of the original bytes (any chunking, level),
+    labelled `Content-Encoding: gzip`, `Vary` containing `Accept-Encoding`, Content-Length dropped. -/
+theorem C17_gzip_labels (z : Z) (hz : z.Lawful) (i : GzipIn) (level mtime : Nat) (h : RespHeaders)
+    (body : List Bytes) (hd : gzipDecision i = .compress) :
+    gunzip z (gzipTool z i level mtime h body).2.2.flatten = some body.flatten ∧
+    (gzipTool z i level mtime h body).2.1.contentEncoding = some sGzip ∧
+    (gzipTool z i level mtime h body).2.1.contentLength = none ∧
+    ∃ vs, (gzipTool z i level mtime h body).2.1.vary = some (joinWith [',', ' '] vs) ∧
+      sAcceptEncoding ∈ vs := by
+  have hr : gzipTool z i level mtime h body =
+      (.compress, gzipHeaders .compress h, frame z level mtime body) := by
+    simp [gzipTool, hd]
+  rw [hr]
+  refine ⟨C17_gzip_roundtrip z hz level mtime body, rfl, rfl, ?_⟩
+  obtain ⟨vs, h1, h2⟩ := setVary_contains h.vary
+  exact ⟨vs, by simp only [gzipHeaders, h1], h2⟩
+
+/-- **Passthrough**: the body chunks, Content-Encoding and Content-Length are untouched. -/
+theorem C17_passthrough (z : Z) (i : GzipIn) (level mtime : Nat) (h : RespHeaders)
+    (body : List Bytes) (hd : gzipDecision i = .passthrough) :
+    (gzipTool z i level mtime h body).2.2 = body ∧
+    (gzipTool z i level mtime h body).2.1.contentEncoding = h.contentEncoding ∧
+    (gzipTool z i level mtime h body).2.1.contentLength = h.contentLength := by
+  simp [gzipTool, hd, gzipHeaders]
+
+/-! ## the gzip tool: when it compresses, when it refuses -/
+
+/-- **Compress only if accepted**: some listed `gzip`/`x-gzip` element has a numeric q ≠ 0 and the
+    media type is eligible (over any element order). -/
+theorem C17_compress_only_if_accepted (ct : Str) (mimes : List Str) (els : List Elem)
+    (h : decideEls ct mimes els = .compress) :
+    ∃ e ∈ els, isGz e ∧ qNumber e ∧ e.q.isZero = false ∧ mimeMatch ct mimes = .yes := by
+  simp only [decideEls] at h
+  split at h
+  · subst h
+    rename_i hl
+    exact gzipLoop_compress ct mimes els hl
+  · exact absurd h (refusalLoop_ne_compress els)
+
+theorem gzipLoop_ne_406 (ct : Str) (mimes : List Str) (els : List Elem) :
+    gzipLoop ct mimes els ≠ some .notAcceptable := by
+  induction els with
+  | nil => simp [gzipLoop]
+  | cons e es ih =>
+    simp only [gzipLoop]
+    split
+    · split
+      · simp
+      · simp
+      · split
+        · exact ih
+        · simp
+    · split
+      · split
+        · simp
+        · simp
+        · split
+          · simp
+          · simp only [mimeDecision]
+            split <;> simp
+      · exact ih
+
+/-- what the statement calls "the client explicitly refuses both gzip and identity", read on the
+    element list: no gzip/x-gzip element is listed at all, every identity element has q = 0, and
+    identity or `*` is excluded with q = 0 -/
+def RefusesBoth (els : List Elem) : Prop :=
+  (∀ e ∈ els, ¬ isGz e) ∧ (∀ e ∈ els, e.value = sIdentity → e.q.isZero = true) ∧
+  ∃ e ∈ els, (e.value = sIdentity ∨ e.value = sStar) ∧ e.q.isZero = true
+
+/-- **406 only if refused** (repaired code), over every element list in any order. -/
+theorem C17_406_only_if_refused (ct : Str) (mimes : List Str) (els : List Elem)
+    (h : decideEls ct mimes els = .notAcceptable) : RefusesBoth els := by
+  simp only [decideEls] at h
+  split at h
+  · subst h
+    rename_i hl
+    exact absurd hl (gzipLoop_ne_406 ct mimes els)
+  · rename_i hl
+    obtain ⟨h1, h2⟩ := gzipLoop_none ct mimes els hl
+    exact ⟨h1, h2, refusalLoop_406 els h⟩
+
+/-- the same at the level of the request header -/
+theorem C17_406_only_if_refused_header (i : GzipIn) (h : gzipDecision i = .notAcceptable) :
+    ∃ els, acceptElements i.acceptEncoding = .ok els ∧ RefusesBoth els := by
+  unfold gzipDecision at h
+  split at h
+  · simp at h
+  · split at h
+    · simp at h
+    · split at h
+      · simp at h
+      · simp at h
+      · simp at h
+      · rename_i els _ hacc
+        exact ⟨els, hacc, C17_406_only_if_refused _ _ els h⟩
+
+/-- non-vacuity: `*;q=0` (what the repo's own test sends) is refused -/
+example : gzipDecision ⟨false, false, some ['*', ';', 'q', '=', '0'], ['t', '/', 'h'], [['t', '/', 'h']]⟩
+    = .notAcceptable := by decide
+
+example : gzipDecision ⟨false, false, some ['g', 'z', 'i', 'p'], ['t', '/', 'h'], [['t', '/', 'h']]⟩
+    = .compress := by decide
+
+/-- the tail as it was BEFORE proposed fix C17-gzip-406 (finding F18): 406 whenever the loop falls through -/
+def decideElsUnrepaired (ct : Str) (mimes : List Str) (els : List Elem) : Decision :=
+  match gzipLoop ct mimes els with
+  | some d => d
+  | none => .notAcceptable
+
+def sDeflate : Str := ['d', 'e', 'f', 'l', 'a', 't', 'e']
+
+/-- **F18**: on the unrepaired tail the statement is false: `Accept-Encoding: deflate` gives 406 although
+    nothing is refused (witness replayed on the real code from corpus/C17). -/
+theorem unrepaired_406_full_false :
+    ¬ (∀ ct mimes els, decideElsUnrepaired ct mimes els = .notAcceptable → RefusesBoth els) := by
+  intro h
+  have h1 := h [] [] [⟨sDeflate, []⟩] (by decide)
+  obtain ⟨_, _, e, he, hv, _⟩ := h1
+  simp only [List.mem_singleton] at he
+  subst he
+  rcases hv with hv | hv <;> exact absurd hv (by decide)
+
+/-- … and the repaired code passes the body through for it -/
+example : gzipDecision ⟨false, false, some sDeflate, ['t', '/', 'h'], [['t', '/', 'h']]⟩ = .passthrough := by
+  decide
+
+/-! ## charset negotiation -/
+
+/-- the implicit ISO-8859-1 fallback applies: neither `*` nor iso-8859-1 is mentioned -/
+def fallbackApplies (encs : List Elem) : Prop :=
+  ¬ (encs.map fun e => lower e.value).contains sStar = true ∧
+  ¬ (encs.map fun e => lower e.value).contains sIso = true
+
+/-- **Buffered bodies: whatever is chosen can encode the whole body** (forced or negotiated). -/
+theorem C17_charset_can_encode (can : Str → Bool) (forced ac : Option Str) (c : Str)
+    (h : findAcceptableCharset can false forced ac = .chosen c) : can c = true := by
+  unfold findAcceptableCharset at h
+  split at h
+  · simp at h
+  · simp at h
+  · rename_i encs _
+    simp only at h
+    split at h
+    · -- forced
+      split at h
+      · split at h
+        · rename_i ht
+          simp only [CsResult.chosen.injEq] at h
+          rw [← h]; exact tryEnc_true can [] _ ht
+        · simp at h
+      · simp at h
+    · split at h
+      · split at h
+        · rename_i ht
+          simp only [CsResult.chosen.injEq] at h
+          rw [← h]; exact tryEnc_true can [] _ ht
+        · simp at h
+      · split at h
+        · rename_i r hl
+          subst h
+          obtain ⟨_, _, _, _, _, _, hcan, _⟩ := csLoop_chosen can encs [] c (by simp) hl
+          exact hcan
+        · rename_i att hl
+          split at h
+          · split at h
+            · rename_i ht
+              simp only [CsResult.chosen.injEq] at h
+              rw [← h]; exact tryEnc_true can att _ ht
+            · simp at h
+          · simp at h
+
+/-- **Negotiated, buffered: the most preferred representable charset is chosen.**  The chosen charset
+    is the default (no header), or stands for a listed element with q > 0 such that no listed element
+    with strictly higher q (> 0) can encode the body, or is the ISO-8859-1 last resort when no listed
+    element with q > 0 can. -/
+theorem C17_charset_preferred (can : Str → Bool) (ac : Option Str) (c : Str)
+    (h : findAcceptableCharset can false none ac = .chosen c) :
+    ∃ encs, acceptElements ac = .ok encs ∧ DescKey encs ∧
+      ((encs = [] ∧ c = sUtf8) ∨
+       (∃ e ∈ encs, e.q.isPos = true ∧ c = nameOf e ∧
+          ∀ e' ∈ encs, e.q.key < e'.q.key → e'.q.isPos = true → can (nameOf e') = false) ∨
+       (c = sIso ∧ fallbackApplies encs ∧ ∀ e' ∈ encs, e'.q.isPos = true → can (nameOf e') = false)) := by
+  unfold findAcceptableCharset at h
+  split at h
+  · simp at h
+  · simp at h
+  · rename_i encs hacc
+    have hdesc := acceptElements_descending ac encs hacc
+    refine ⟨encs, hacc, hdesc, ?_⟩
+    simp only at h
+    split at h
+    · rename_i hempty
+      split at h
+      · simp only [CsResult.chosen.injEq] at h
+        exact Or.inl ⟨by simpa using hempty, h.symm⟩
+      · simp at h
+    · split at h
+      · rename_i r hl
+        subst h
+        obtain ⟨pre, e, post, hes, hp, hc, _, hpre⟩ := csLoop_chosen can encs [] c (by simp) hl
+        refine Or.inr (Or.inl ⟨e, by simp [hes], hp, hc, ?_⟩)
+        intro e' he' hk hq
+        rw [hes] at he' hdesc
+        rcases List.mem_append.mp he' with hm | hm
+        · exact hpre e' hm hq
+        · rcases List.mem_cons.mp hm with rfl | hm'
+          · omega
+          · have := (List.pairwise_cons.mp (List.pairwise_append.mp hdesc).2.1).1 e' hm'
+            omega
+      · rename_i att hl
+        obtain ⟨hatt, hall⟩ := csLoop_inr can encs [] att (by simp) hl
+        split at h
+        · rename_i hfb
+          split at h
+          · simp only [CsResult.chosen.injEq] at h
+            exact Or.inr (Or.inr ⟨h.symm, hfb, hall⟩)
+          · simp at h
+        · simp at h
+
+/-- **Negotiated, buffered: 406 only if nothing acceptable can represent the text.** -/
+theorem C17_charset_406_only_if_none (can : Str → Bool) (ac : Option Str)
+    (h : findAcceptableCharset can false none ac = .notAcceptable) :
+    ∃ encs, acceptElements ac = .ok encs ∧ encs ≠ [] ∧
+      (∀ e ∈ encs, e.q.isPos = true → can (nameOf e) = false) ∧
+      (fallbackApplies encs → can sIso = false) := by
+  unfold findAcceptableCharset at h
+  split at h
+  · simp at h
+  · simp at h
+  · rename_i encs hacc
+    refine ⟨encs, hacc, ?_⟩
+    simp only at h
+    split at h
+    · split at h <;> simp at h
+    · rename_i hne
+      split at h
+      · rename_i r hl
+        subst h
+        exact absurd hl (csLoop_ne_406 can false encs [])
+      · rename_i att hl
+        obtain ⟨hatt, hall⟩ := csLoop_inr can encs [] att (by simp) hl
+        refine ⟨by simpa using hne, hall, ?_⟩
+        intro hfb
+        split at h
+        · split at h
+          · simp at h
+          · rename_i ht
+            exact (tryEnc_false can att sIso hatt (by simpa using ht)).1
+        · rename_i hn
+          exact absurd hfb hn
+
+
+/-- non-vacuity (the repo's own example): `iso-8859-1;q=1, utf-16;q=0.5` on a text Latin-1 cannot
+    represent chooses utf-16 -/
+example :
+    findAcceptableCharset (fun n => n = "utf-16".toList) false none (some "iso-8859-1;q=1, utf-16;q=0.5".toList)
+      = .chosen "utf-16".toList := by decide
+
+/-- **Forced encoding**: it is announced iff the header permits it and it can encode; else 406. -/
+theorem C17_charset_forced (can : Str → Bool) (f : Str) (ac : Option Str) (c : Str)
+    (h : findAcceptableCharset can false (some f) ac = .chosen c) : c = lower f ∧ can c = true := by
+  refine ⟨?_, C17_charset_can_encode can (some f) ac c h⟩
+  unfold findAcceptableCharset at h
+  split at h
+  · simp at h
+  · simp at h
+  · simp only at h
+    split at h
+    · split at h
+      · simp only [CsResult.chosen.injEq] at h
+        exact h.symm
+      · simp at h
+    · simp at h
+
+/-- **Announced**: when a charset is found, the Content-Type written back is the first content-type
+    element with its `charset` parameter set to exactly that charset. -/
+theorem C17_charset_announced (can : Str → Bool) (i : EncodeIn) (c nct : Str)
+    (h : encodeCall can i = .found c nct) :
+    ∃ ct rest, plainElements i.contentType = ct :: rest ∧
+      findAcceptableCharset can i.stream i.forced i.acceptCharset = .chosen c ∧
+      nct = Elem.str { ct with params := setP ct.params sCharset (.str c) } ∧
+      getP (setP ct.params sCharset (.str c)) sCharset = some (.str c) := by
+  unfold encodeCall at h
+  split at h
+  · simp at h
+  · rename_i ct rest hp
+    split at h
+    · simp at h
+    · split at h
+      · simp at h
+      · split at h
+        · rename_i c' hf
+          simp only [EncodeOut.found.injEq] at h
+          obtain ⟨rfl, rfl⟩ := h
+          refine ⟨ct, rest, hp, hf, rfl, ?_⟩
+          generalize ct.params = ps
+          induction ps with
+          | nil => simp [setP, getP]
+          | cons p ps ih =>
+            obtain ⟨k, v⟩ := p
+            simp only [setP]
+            split
+            · rename_i hk
+              simp [getP, hk]
+            · rename_i hk
+              simp only [getP, List.find?_cons, hk, decide_false] at ih ⊢
+              exact ih
+        · simp at h
+
+/-! ### the emitted bytes -/
+
+/-- per-chunk round trip: what Python guarantees for `text.encode(name)` / `bytes.decode(name)` -/
+def ChunkRT (k : Codec) : Prop := ∀ name t b, k.enc name t = some b → k.dec name b = some t
+
+/-- decoding is compatible with concatenation of complete encodings (true for stateless, BOM-free codecs) -/
+def ConcatOk (k : Codec) (name : Str) : Prop :=
+  k.dec name [] = some [] ∧
+  ∀ b1 b2 t1 t2, k.dec name b1 = some t1 → k.dec name b2 = some t2 → k.dec name (b1 ++ b2) = some (t1 ++ t2)
+
+/-- the full statement: what the buffered tool emits decodes, under the announced charset, to the text -/
+def C17_charset_sound_full : Prop :=
+  ∀ (k : Codec), ChunkRT k → ∀ (name : Str) (chunks : List Str) (bs : List Bytes),
+    encodeString k name chunks = some bs → k.dec name bs.flatten = some chunks.flatten
+
+/-- **Sound (partial)**: for codecs compatible with concatenation the emitted bytes decode to the text,
+    for every chunking. -/
+theorem C17_charset_sound_partial (k : Codec) (hk : ChunkRT k) (name : Str) (hc : ConcatOk k name)
+    (chunks : List Str) (bs : List Bytes) (h : encodeString k name chunks = some bs) :
+    k.dec name bs.flatten = some chunks.flatten := by
+  induction chunks generalizing bs with
+  | nil =>
+    simp only [encodeString, List.mapM_nil] at h
+    cases h
+    simpa using hc.1
+  | cons t ts ih =>
+    simp only [encodeString, List.mapM_cons] at h
+    cases hb : k.enc name t with
+    | none => simp [hb] at h
+    | some b =>
+      cases hr : List.mapM (k.enc name) ts with
+      | none => simp [hb, hr] at h
+      | some r =>
+        simp [hb, hr] at h
+        subst h
+        simp only [List.flatten_cons]
+        exact hc.2 b r.flatten t ts.flatten (hk name t b hb) (ih r hr)
+
+/-- a one-chunk body needs no concatenation hypothesis -/
+theorem C17_charset_sound_single (k : Codec) (hk : ChunkRT k) (name : Str) (t : Str) (bs : List Bytes)
+    (h : encodeString k name [t] = some bs) : k.dec name bs.flatten = some t := by
+  simp only [encodeString, List.mapM_cons, List.mapM_nil] at h
+  cases hb : k.enc name t with
+  | none => simp [hb] at h
+  | some b =>
+    simp [hb] at h
+    subst h
+    simpa using hk name t b hb
+
+/-- a codec that prefixes every encoding with a mark (the shape of utf-16 / utf-32 / utf-8-sig) -/
+def bomCodec : Codec where
+  enc := fun _ t => if t = ['a'] then some [0xFF, 0x61] else none
+  dec := fun _ b => if b = [0xFF, 0x61] then some ['a'] else none
+
+/-- **F18c**: the full statement is false — per-chunk encoding under a marking codec does not decode to
+    the text once there are two chunks. -/
+theorem C17_charset_sound_full_false : ¬ C17_charset_sound_full := by
+  intro h
+  have hk : ChunkRT bomCodec := by
+    intro name t b hb
+    simp only [bomCodec] at hb ⊢
+    split at hb
+    · cases hb; simp_all
+    · simp at hb
+  have := h bomCodec hk [] [['a'], ['a']] [[0xFF, 0x61], [0xFF, 0x61]] (by decide)
+  revert this
+  decide
+
+/-- **F18b**: streamed bodies — the first acceptable charset is announced whether or not it can encode
+    the body (here nothing can) -/
+theorem C17_charset_stream_full_false :
+    ¬ (∀ (can : Str → Bool) (forced ac : Option Str) (c : Str),
+        findAcceptableCharset can true forced ac = .chosen c → can c = true) := by
+  intro h
+  have := h (fun _ => false) none (some ['x']) ['x'] (by decide)
+  simp at this
+
+/-- **F18e**: `*` ranks the default charset at the q of `*`, ignoring an explicit entry for it:
+    `utf-8;q=0, *;q=0.2` is answered in utf-8 -/
+theorem C17_charset_star_ignores_explicit :
+    findAcceptableCharset (fun _ => true) false none (some "utf-8;q=0, *;q=0.2".toList) = .chosen sUtf8 := by
+  decide
+
+/-- `parseQ` never yields a scale above 15, so `Q.key` compares exact decimals -/
+theorem mkQ_scale_le (neg : Bool) (ip fp : Str) (neg' : Bool) (n sc : Nat)
+    (h : mkQ neg ip fp = .ok neg' n sc) : sc ≤ 15 := by
+  simp only [mkQ] at h
+  split at h
+  · simp at h
+  · simp only [Q.ok.injEq] at h
+    omega
+
+theorem parseQ_scale_le (s : Str) (neg : Bool) (n sc : Nat) (h : parseQ s = .ok neg n sc) : sc ≤ 15 := by
+  simp only [parseQ] at h
+  repeat' split at h
+  all_goals first
+    | exact mkQ_scale_le _ _ _ _ _ _ h
+    | simp at h
 
 end CpProofs.C17
